@@ -120,10 +120,14 @@ class MediaRequestBase(RequestHandlerBase):
                     pssh = drm.moov(representation.default_kid)
                     atom.moov.append_child(pssh)
         if mode == 'live':
+            # remove the mehd box as this stream is not supposed to
+            # have a fixed duration. It normally lives in moov/mvex
             try:
-                # remove the mehd box as this stream is not supposed to
-                # have a fixed duration
                 del atom.moov.mehd
+            except AttributeError:
+                pass
+            try:
+                del atom.moov.mvex.mehd
             except AttributeError:
                 pass
         data = atom.encode()
